@@ -45,7 +45,10 @@ def pcgrad(index, ctx):
         raise AnalysisError("anchor vanished: _PCGradWeighting.forward")
     fi = r[1]
     ctx.analysed(fi.qualname)
-    fn = fi.node
+    # read in canonical shape: helpers of the class/module expanded in place, walrus tests split, reduce(add, generator) as a loop
+    from ..normalize import canonical
+
+    fn = canonical(fi, index)
     # the conflict test: an If whose test compares a value with 0 (any orientation / negation)
     from ..guards import implies, oriented
 
@@ -125,7 +128,10 @@ def pcgrad(index, ctx):
                     return True
         return False
 
-    skips_self = bool(conts) or any(isinstance(c, ast.Compare) and isinstance(c.ops[0], ast.NotEq) and {jvar, ivar} <= names_read(c) for c in ast.walk(inner)) or filters_self(inner.iter)
+    removed_self = isinstance(inner.iter, ast.Name) and any(
+        isinstance(s2, ast.Expr) and isinstance(s2.value, ast.Call) and isinstance(s2.value.func, ast.Attribute) and s2.value.func.attr == "remove" and isinstance(s2.value.func.value, ast.Name)
+        and s2.value.func.value.id == inner.iter.id and len(s2.value.args) == 1 and isinstance(s2.value.args[0], ast.Name) and s2.value.args[0].id == ivar for s2 in outer.body)
+    skips_self = bool(conts) or any(isinstance(c, ast.Compare) and isinstance(c.ops[0], ast.NotEq) and {jvar, ivar} <= names_read(c) for c in ast.walk(inner)) or filters_self(inner.iter) or removed_self
     ctx.require(skips_self, "R1", "PCGrad: a row is never projected off itself", "the loop skips j == i",
                 "the projection loop no longer skips j == i: once row i conflicts with its own projected vector its coefficient is altered (outputs outside the published candidate set for m >= 3)", _loc(fi, inner))
     # accumulation of the projected vector in the outer loop, after the inner loop
@@ -177,11 +183,21 @@ def graddrop(index, ctx, A, by_class):
     masks = [s for s in loop.body if isinstance(s, ast.Assign) and isinstance(s.targets[0], ast.Name)]
     mask_names = [s.targets[0].id for s in masks if any(isinstance(x, ast.Compare) for x in ast.walk(s.value))]
     p = expr_poly(acc.value, atoms)
-    lvar = loop.target.id if isinstance(loop.target, ast.Name) else None
-    row_syms = [t for t, e in atoms.items() if isinstance(e, ast.Subscript) and base_name(e) == "matrix"] or \
-               [t for t, e in atoms.items() if isinstance(e, ast.Name) and e.id == (loop.target.elts[-1].id if isinstance(loop.target, ast.Tuple) else "")]
-    leak_syms = [t for t, e in atoms.items() if "leak" in t and t not in row_syms]
+    # which loop variable is the row: the one bound to the elements of `matrix` (directly, by index, or through zip/enumerate)
+    mparam = next((a_.arg for a_ in fn.args.args if a_.arg != "self"), "matrix")
+    row_names = set()
+    tgt, it = loop.target, loop.iter
+    if isinstance(it, ast.Call) and isinstance(it.func, ast.Name) and it.func.id == "enumerate" and it.args and isinstance(tgt, ast.Tuple) and len(tgt.elts) == 2:
+        tgt, it = tgt.elts[1], it.args[0]
+    if isinstance(it, ast.Name) and it.id == mparam and isinstance(tgt, ast.Name):
+        row_names.add(tgt.id)
+    if isinstance(it, ast.Call) and isinstance(it.func, ast.Name) and it.func.id == "zip" and isinstance(tgt, ast.Tuple) and len(tgt.elts) == len(it.args):
+        for te, ae in zip(tgt.elts, it.args):
+            if isinstance(ae, ast.Name) and ae.id == mparam and isinstance(te, ast.Name):
+                row_names.add(te.id)
+    row_syms = [t for t, e in atoms.items() if isinstance(e, ast.Subscript) and base_name(e) == mparam] or [t for t, e in atoms.items() if isinstance(e, ast.Name) and e.id in row_names]
     mask_syms = [t for t in atoms if t in mask_names]
+    leak_syms = [t for t in atoms if t not in row_syms and t not in mask_syms]
     if p is None or len(row_syms) != 1 or len(leak_syms) != 1 or len(mask_syms) != 1:
         ctx.undecided("R2", "GradDrop: blend coefficient", f"could not identify row/leak/mask symbols in `{norm_text(acc.value)}` (rows={row_syms}, leak={leak_syms}, mask={mask_syms})", _loc(fi, acc))
         return
@@ -196,22 +212,99 @@ def graddrop(index, ctx, A, by_class):
     if ms:
         from ..astutil import inline_locals
 
-        mexpr = inline_locals(ms[0].value, fn, keep={M})  # hoisted sub-masks (`keep = s > U`) read in place
-        cmp = [(norm_text(c.left), type(c.ops[0]).__name__, norm_text(c.comparators[0])) for c in ast.walk(mexpr) if isinstance(c, ast.Compare)]
-        # orientation: the row (resp. the sign statistic) on the left, so that `0 < row` reads `row > 0`
-        flip = {"Gt": "Lt", "Lt": "Gt", "GtE": "LtE", "LtE": "GtE"}
-        cmp = [(r, flip.get(o, o), l) if (r == row_syms[0] or (l in ("0", "0.0"))) and l != row_syms[0] else (l, o, r) for l, o, r in cmp]
-        rest = [c for c in cmp if c[0] != row_syms[0]]
-        if len(rest) == 2 and rest[0][0] == rest[1][2] and rest[0][2] == rest[1][0]:
-            # the two sign tests written with opposite operand order: orient the second like the first
-            i = cmp.index(rest[1])
-            cmp[i] = (rest[1][2], flip.get(rest[1][1], rest[1][1]), rest[1][0])
-        pos = [c for c in cmp if c[0] == row_syms[0] and c[1] == "Gt" and c[2] in ("0", "0.0")]
-        neg = [c for c in cmp if c[0] == row_syms[0] and c[1] == "Lt" and c[2] in ("0", "0.0")]
-        others = [c for c in cmp if c[0] != row_syms[0]]
-        okm = len(pos) == 1 and len(neg) == 1 and len(others) == 2 and {others[0][1], others[1][1]} == {"Gt", "Lt"} and others[0][0] == others[1][0] and others[0][2] == others[1][2]
-        ctx.require(okm, "R2", "GradDrop: mask keeps the positive entries or the negative entries of a column", f"mask `{norm_text(ms[0].value)}`",
-                    f"mask `{norm_text(ms[0].value)}` is not (s > U)·(row > 0) + (s < U)·(row < 0)", _loc(fi, ms[0]))
+        u_names = [s2.targets[0].id for s2 in ast.walk(fn) if isinstance(s2, ast.Assign) and isinstance(s2.targets[0], ast.Name) and isinstance(s2.value, ast.Call)
+                   and norm_text(s2.value.func).split(".")[-1] in ("rand", "rand_like")]
+        mexpr = inline_locals(ms[0].value, fn, keep={M} | set(u_names))  # hoisted sub-masks (`keep = s > U`) read in place
+        ok_mask, why_mask = mask_equivalent(mexpr, row_syms[0], u_names[0] if len(u_names) == 1 else None)
+        if ok_mask is None:
+            ctx.undecided("R2", "GradDrop: mask keeps the positive entries or the negative entries of a column", f"mask `{norm_text(ms[0].value)}`: {why_mask}", _loc(fi, ms[0]))
+        else:
+            ctx.require(ok_mask, "R2", "GradDrop: mask keeps the positive entries or the negative entries of a column", f"mask `{norm_text(ms[0].value)}` ≡ (s > U)·(row > 0) + (s < U)·(row < 0)",
+                        f"mask `{norm_text(ms[0].value)}` is not equivalent to (s > U)·(row > 0) + (s < U)·(row < 0): {why_mask}", _loc(fi, ms[0]))
+
+
+def mask_equivalent(expr, row_text, u_name=None):
+    """Is the boolean-valued tensor expression equal, entry by entry, to (s > U)∧(row > 0) ∨ (s < U)∧(row < 0)?  Decided on the truth table of the
+    four comparisons (A: s > U, B: s < U, P: row > 0, N: row < 0; A∧B and P∧N are impossible). (True/False, reason) or (None, reason) when a
+    sub-expression is not one of these comparisons combined with * + & | ~ torch.where / logical_and / logical_or."""
+    import itertools
+
+    pair = {}
+
+    class Mismatch(Exception):
+        pass
+
+    def atom(c):
+        if not (isinstance(c, ast.Compare) and len(c.ops) == 1):
+            return None
+        l, op, r = norm_text(c.left), type(c.ops[0]), norm_text(c.comparators[0])
+        flip = {ast.Gt: ast.Lt, ast.Lt: ast.Gt, ast.GtE: ast.LtE, ast.LtE: ast.GtE}
+        if r == row_text and l in ("0", "0.0"):
+            l, r, op = r, l, flip.get(op, op)
+        if l == row_text and r in ("0", "0.0"):
+            return {ast.Gt: ("P", True), ast.Lt: ("N", True), ast.LtE: ("P", False), ast.GtE: ("N", False)}.get(op)
+        if row_text in (l, r) or u_name is None:
+            return None
+        # the keep statistic s against the uniform draw U, U on the right after orientation
+        if l == u_name:
+            l, r, op = r, l, flip.get(op, op)
+        if r != u_name:
+            if any(isinstance(n_, ast.Name) and n_.id == u_name for n_ in ast.walk(c)):
+                raise Mismatch(f"`{norm_text(c)}` does not compare the keep statistic with the uniform draw `{u_name}` itself")
+            return None
+        stat = pair.setdefault("s", l)
+        if l != stat:
+            raise Mismatch(f"`{norm_text(c)}` compares `{l}` with `{u_name}` while the other sign test compares `{stat}`: the two tests are not complementary")
+        return {ast.Gt: ("A", True), ast.Lt: ("B", True), ast.LtE: ("A", False), ast.GtE: ("B", False)}.get(op)
+
+    class Unknown(Exception):
+        pass
+
+    def ev(e, env):
+        if isinstance(e, ast.Compare):
+            a = atom(e)
+            if a is None:
+                raise Unknown(f"`{norm_text(e)}` is not a sign test of the row or of the keep statistic")
+            return env[a[0]] if a[1] else not env[a[0]]
+        if isinstance(e, ast.BinOp) and isinstance(e.op, (ast.Mult, ast.BitAnd)):
+            return ev(e.left, env) and ev(e.right, env)
+        if isinstance(e, ast.BinOp) and isinstance(e.op, (ast.Add, ast.BitOr)):
+            l, r = ev(e.left, env), ev(e.right, env)
+            if l and r and isinstance(e.op, ast.Add):
+                raise Unknown("a sum of two masks that can both be true is not a mask")
+            return l or r
+        if isinstance(e, ast.UnaryOp) and isinstance(e.op, (ast.Invert, ast.Not)):
+            return not ev(e.operand, env)
+        if isinstance(e, ast.Call):
+            f = norm_text(e.func).split(".")[-1]
+            if f == "where" and len(e.args) == 3:
+                return ev(e.args[1], env) if ev(e.args[0], env) else ev(e.args[2], env)
+            if f in ("logical_and", "bitwise_and") and len(e.args) == 2:
+                return ev(e.args[0], env) and ev(e.args[1], env)
+            if f in ("logical_or", "bitwise_or") and len(e.args) == 2:
+                return ev(e.args[0], env) or ev(e.args[1], env)
+            if f in ("logical_not", "bitwise_not") and len(e.args) == 1:
+                return not ev(e.args[0], env)
+            if f in ("to", "float", "double", "type", "int", "bool") and isinstance(e.func, ast.Attribute):
+                return ev(e.func.value, env)
+        if isinstance(e, ast.Constant) and e.value in (0, 1, True, False, 0.0, 1.0):
+            return bool(e.value)
+        raise Unknown(f"`{norm_text(e)}` is outside the recognised mask algebra")
+
+    try:
+        for A_, B_, P_, N_ in itertools.product((False, True), repeat=4):
+            if (A_ and B_) or (P_ and N_):
+                continue
+            env = {"A": A_, "B": B_, "P": P_, "N": N_}
+            got = ev(expr, env)
+            want = (A_ and P_) or (B_ and N_)
+            if got != want:
+                return False, f"for s>U={A_}, s<U={B_}, row>0={P_}, row<0={N_} the mask is {got} instead of {want}"
+    except Unknown as u:
+        return None, str(u)
+    except Mismatch as u:
+        return False, str(u)
+    return True, ""
 
 
 # ------------------------------------------------------------------------------------------------ Random
@@ -269,8 +362,13 @@ def cagrad(index, ctx, A, by_class):
             ctx.require(len(step) == 1 and "c" in r.value.origin, "R4", "CAGrad: weights = 1/m + (c·‖g0‖/‖g_w‖)·w", "uniform 1/m plus a multiple of w carrying c",
                         f"non-stationary branch does not add a c-dependent multiple of the optimiser's w to the uniform 1/m weights (additions: {[e['text'] for e in adds][:3]})",
                         step[0]["loc"] if step else cls.loc())
-    ctx.require(seen_step and seen_zero, "R4", "CAGrad: stationary and non-stationary branches", "both branches present",
-                "CAGrad no longer has both the non-stationary branch and the exact-zero stationary branch", cls.loc())
+    untyped = [r for run in by_class["CAGrad"] for r in weighting_results(A, run)[1] if r.kind == "return" and (not isinstance(r.value, TV) or _agg.blocking_unknowns(r))]
+    if untyped and not (seen_step and seen_zero):
+        u0 = _agg.blocking_unknowns(untyped[0])
+        ctx.undecided("R4", "CAGrad: stationary and non-stationary branches", "a returning path of the weighting is not fully typed" + (f": {u0[0]['loc']} {u0[0].get('why', '')}" if u0 else ""), cls.loc())
+    else:
+        ctx.require(seen_step and seen_zero, "R4", "CAGrad: stationary and non-stationary branches", "both branches present",
+                    "CAGrad no longer has both the non-stationary branch and the exact-zero stationary branch", cls.loc())
 
 
 # ------------------------------------------------------------------------------------------------ MGDA
